@@ -145,6 +145,58 @@ var fUse = bigslice.Func(func(s bigslice.Slice) bigslice.Slice {
 	return bigslice.Map(s, func(x int) int { return x + 1 })
 })
 
+// fProcs: one task that carries bigslice.Procs(k) or bigslice.Exclusive.
+var fProcs = bigslice.Func(func(k int, exclusive bool) bigslice.Slice {
+	prag := bigslice.Procs(k)
+	if exclusive {
+		prag = bigslice.Exclusive
+	}
+	return bigslice.ReaderFunc(1, func(shard int, st *int, out []int) (int, error) {
+		if *st != 0 {
+			return 0, sliceio.EOF
+		}
+		*st = 1
+		out[0] = shard
+		return 1, nil
+	}, prag)
+})
+
+// burst: n ordinary one-proc tasks whose user function counts how many of them
+// are inside user code at once and stays there until the harness hands it a token.
+type burst struct {
+	entered, cur, peak int32
+	tokens             chan struct{}
+}
+
+var bursts sync.Map
+
+func getBurst(name string) *burst {
+	b, _ := bursts.LoadOrStore(name, &burst{tokens: make(chan struct{}, 1<<16)})
+	return b.(*burst)
+}
+
+var fBurst = bigslice.Func(func(name string, n int) bigslice.Slice {
+	return bigslice.ReaderFunc(n, func(shard int, st *int, out []int) (int, error) {
+		if *st != 0 {
+			return 0, sliceio.EOF
+		}
+		*st = 1
+		b := getBurst(name)
+		c := atomic.AddInt32(&b.cur, 1)
+		for {
+			p := atomic.LoadInt32(&b.peak)
+			if c <= p || atomic.CompareAndSwapInt32(&b.peak, p, c) {
+				break
+			}
+		}
+		atomic.AddInt32(&b.entered, 1)
+		<-b.tokens
+		atomic.AddInt32(&b.cur, -1)
+		out[0] = shard
+		return 1, nil
+	})
+})
+
 // ----------------------------------------------------------- interposer ----
 
 // rule: what to do to the nth call (since arming) of Method.
@@ -190,6 +242,8 @@ type isys struct {
 	// forbid: hosts that must not receive Worker.Compile/Run any more, with the reason.
 	forbid     map[string]string
 	forbidHits []string
+	// Worker.Run RPCs in flight per host (= tasks holding procs of that machine), and the peak.
+	runNow, runPeak map[string]int
 }
 
 func (s *isys) HTTPClient() *http.Client { return &http.Client{Transport: s} }
@@ -254,6 +308,19 @@ func (s *isys) RoundTrip(req *http.Request) (*http.Response, error) {
 	if driverMethod(method) {
 		atomic.AddInt32(&s.inflight, 1)
 		defer atomic.AddInt32(&s.inflight, -1)
+	}
+	if method == "Worker.Run" {
+		s.mu.Lock()
+		s.runNow[host]++
+		if s.runNow[host] > s.runPeak[host] {
+			s.runPeak[host] = s.runNow[host]
+		}
+		s.mu.Unlock()
+		defer func() {
+			s.mu.Lock()
+			s.runNow[host]--
+			s.mu.Unlock()
+		}()
 	}
 	if obs != nil {
 		obs.sample("before " + method)
@@ -331,7 +398,10 @@ type ccase struct {
 	Extra    int     `json:"extra_machines"` // replacements the system may start
 	Combiner bool    `json:"machine_combiners"`
 	Scenario string  `json:"scenario"`
-	Rule     *rule   `json:"rule,omitempty"`
+	// scenario "procs": the task carries bigslice.Procs(K), or bigslice.Exclusive.
+	K    int   `json:"k,omitempty"`
+	Excl bool  `json:"exclusive,omitempty"`
+	Rule *rule `json:"rule,omitempty"`
 }
 
 func (c ccase) Name() string {
@@ -339,7 +409,15 @@ func (c ccase) Name() string {
 	if c.Combiner {
 		comb = "+combiners"
 	}
-	return fmt.Sprintf("%dm×%dp(load %.2g)%s/%s/%s", c.Cluster, c.P, c.MaxLoad, comb, c.Scenario, c.Rule.String())
+	scen := c.Scenario
+	if scen == "procs" {
+		if c.Excl {
+			scen = "procs=Exclusive"
+		} else {
+			scen = fmt.Sprintf("procs=Procs(%d)", c.K)
+		}
+	}
+	return fmt.Sprintf("%dm×%dp(load %.2g)%s/%s/%s", c.Cluster, c.P, c.MaxLoad, comb, scen, c.Rule.String())
 }
 
 type cres struct {
@@ -364,6 +442,9 @@ type cres struct {
 	FinalQueue []int               `json:"queued_requests_at_end"`
 	Samples    int                 `json:"samples"`
 	Peak       map[string]int      `json:"peak_taskprocs"`
+	RunPeak    map[string]int      `json:"peak_worker_run_in_flight"`
+	BurstPeak  int                 `json:"burst_peak_in_user_code,omitempty"`
+	BurstWaves int                 `json:"burst_waves,omitempty"`
 	Bad        map[string]string   `json:"bound_violations,omitempty"`
 	// Violations: oracle id -> detail.
 	Violations map[string]string `json:"violations,omitempty"`
@@ -455,7 +536,7 @@ func runCase(c ccase) (out cres) {
 	}
 	inner := vsys.New(c.P)
 	inner.MaxMachines = c.Cluster + c.Extra
-	sys := &isys{System: inner, forbid: map[string]string{}}
+	sys := &isys{System: inner, forbid: map[string]string{}, runNow: map[string]int{}, runPeak: map[string]int{}}
 	mp := int(float64(c.P) * c.MaxLoad) // the manager's machprocs
 	if mp < 1 {
 		mp = 1
@@ -625,6 +706,8 @@ func runCase(c ccase) (out cres) {
 		}
 	case "probation", "stopped":
 		do(fMap1, "ok")
+	case "procs":
+		do(fProcs, c.K, c.Excl)
 	default:
 		out.Vacuous = "unknown scenario " + c.Scenario
 	}
@@ -779,6 +862,46 @@ func runCase(c ccase) (out cres) {
 		}
 	}
 
+	// Burst of ordinary one-proc tasks: never more than the machine's task capacity
+	// of them inside user code at once. Tasks stay in user code until the harness has
+	// seen the manager hand out everything it is willing to (every task has either
+	// entered user code or is queued), so the observation does not depend on timing.
+	if c.Scenario == "procs" && out.Vacuous == "" {
+		name := gname("burst")
+		n := 2*total + 1
+		b := getBurst(name)
+		ch := runAsync(bg, fBurst, name, n)
+		released := 0
+		dl := time.Now().Add(runWatchdog)
+		for released < n && time.Now().Before(dl) {
+			e := int(atomic.LoadInt32(&b.entered))
+			q := sumInts(exec.VerifC14Queued(sess))
+			if e > released && (e+q == n || int(atomic.LoadInt32(&b.cur)) > nMach*machTasks) {
+				for i := released; i < e; i++ {
+					b.tokens <- struct{}{}
+				}
+				released = e
+				out.BurstWaves++
+				continue
+			}
+			time.Sleep(time.Millisecond)
+		}
+		for i := 0; i < n; i++ { // never leave a task behind
+			b.tokens <- struct{}{}
+		}
+		bo, ok := wait(ch, runWatchdog)
+		out.BurstPeak = int(atomic.LoadInt32(&b.peak))
+		switch {
+		case released < n || !ok:
+			out.Inconclusive = fmt.Sprintf("burst did not complete (released %d of %d, hung=%v); manager: queued %v, machines %+v", released, n, !ok, exec.VerifC14Queued(sess), exec.VerifC14Machines(sess))
+		case bo.err != nil:
+			out.Notes = append(out.Notes, "burst returned an error: "+bo.err.Error())
+		}
+		if out.BurstPeak > nMach*machTasks {
+			viol("machine-oversubscribed", fmt.Sprintf("after a task with %s: %d one-proc tasks were inside user code at once on %d machine(s) of task capacity %d; machines %+v", c.Name(), out.BurstPeak, nMach, machTasks, exec.VerifC14Machines(sess)))
+		}
+	}
+
 	// Phase 3: the black-box capacity test. One exclusive task per machine of the
 	// cluster, all waiting for each other: it completes iff every machine can still
 	// give all its procs to one task.
@@ -857,7 +980,18 @@ func finishObs(out *cres, obs *observer, sys *isys, viol func(string, string)) {
 	obs.mu.Unlock()
 	sys.mu.Lock()
 	out.Calls = append([]string{}, sys.calls...)
+	out.RunPeak = map[string]int{}
+	for h, p := range sys.runPeak {
+		out.RunPeak[h] = p
+	}
 	sys.mu.Unlock()
+	// Every Worker.Run RPC in flight belongs to a task that holds at least one proc
+	// of that machine until the RPC returns.
+	for h, p := range out.RunPeak {
+		if out.MachProcs > 0 && p > out.MachProcs {
+			viol("machine-oversubscribed", fmt.Sprintf("%d tasks were inside Worker.Run at once on %s, whose task capacity is %d", p, h, out.MachProcs))
+		}
+	}
 }
 
 func childMain(arg string) {
